@@ -5,6 +5,7 @@ use crate::report::*;
 use crate::seqx;
 use crate::gsweep;
 use crate::csweep;
+use crate::sched;
 use crate::seqx::Out;
 use serde_json::{json, Value};
 
@@ -157,6 +158,46 @@ pub fn plan(prop: &str, tier: &str) -> Option<Plan> {
                 },
             })
         }
+        "C17" => {
+            let known = KnownFindings::load(&format!("{}/known_findings.json", crate::verif_dir()));
+            let mut jobs = Vec::new();
+            for f in ["sync_digraph", "sync_ungraph"] {
+                let open_pairs: Vec<String> = known
+                    .findings
+                    .iter()
+                    .filter(|k| k.status == "open" && k.property == "C17" && k.flavour == f)
+                    .filter_map(|k| k.class.split_once('/').map(|x| x.1.to_string()))
+                    .collect();
+                // (n, init_edges, shape, bound, max_exec, shards)
+                let table: Vec<(usize, usize, &str, Option<usize>, u64, usize)> = if tier == "quick" {
+                    vec![(2, 1, "2x1", None, 200_000, 8)]
+                } else {
+                    vec![
+                        (2, 2, "2x1", None, 500_000, 8),
+                        (3, 1, "2x1", None, 500_000, 16),
+                        (2, 1, "2x2m", Some(2), 50_000, 16),
+                        (2, 1, "3x1m", Some(2), 50_000, 16),
+                        (2, 1, "2x1q2", Some(3), 50_000, 8),
+                    ]
+                };
+                for (n, ie, shape, bound, max_exec, sh) in table {
+                    jobs.extend(sharded(prop, "sched", f, tier, json!({"n": n, "init_edges": ie, "shape": shape, "bound": bound, "max_exec": max_exec, "open_pairs": open_pairs}), sh));
+                }
+            }
+            Some(Plan {
+                jobs,
+                level: "model_checking".into(),
+                rule: "stateless DFS over all interleavings of lock acquisitions of the real code under a deterministic scheduler (one scheduling point before every RwLock read()/write() of the sync node modules); 2-thread x 1-call scenarios over all operand pairs and initial edge lists are explored completely (no preemption bound), larger ones up to the stated preemption bound; every execution is judged: no deadlock (also under std's writer-preferring RwLock policy), no panic, no poisoned lock, invariants at quiescence, and (final state, returns of the mutating calls) equal to some sequential order of the same calls run on the real code. states/transitions = lock points scheduled; evaluations = complete schedules; nontrivial = scenarios with >= 2 distinct outcomes over their schedules".into(),
+                bounds: json!({"quick": "2 nodes, <=1 initial edge, 2 threads x 1 call, all interleavings", "thorough": "also <=2 initial edges, 3 nodes, 2x2 and 3x1 mutator scenarios with preemption bound 2, mutator vs 2 queries with bound 3"}),
+                exhaustive: true,
+                assumptions: vec![
+                    "scheduling at lock acquisitions is sufficient: between two acquisitions a thread touches only its own stack, immutable keys/values and Arc counters (data-race freedom outside the locks is Rust's type system plus C16)".into(),
+                    "the cfg(gdsl_verif) RwLock wrapper intercepts every lock operation of the two sync node modules".into(),
+                    "deadlocks that need std's writer-preference are labelled rr-deadlock (policy of the futex RwLock on Linux, measured in this sandbox)".into(),
+                    "larger scenarios containing a call pair that is an open known finding are skipped (counted in scenarios_skipped_open_known_pair)".into(),
+                ],
+            })
+        }
         _ => None,
     }
 }
@@ -166,6 +207,7 @@ pub fn work(job: &Job, out: &mut Out) {
         "seqx" => crate::with_flavor!(job.flavour.as_str(), F => seqx::explore::<F>(job, out)),
         "gsweep" => crate::with_flavor!(job.flavour.as_str(), F => gsweep::sweep::<F>(job, out)),
         "csweep" => crate::with_flavor!(job.flavour.as_str(), F => csweep::sweep::<F>(job, out)),
+        "sched" => crate::with_sync_flavor!(job.flavour.as_str(), F => sched::sweep::<F>(job, out)),
         other => panic!("GDSL_MC_HARNESS: unknown engine {}", other),
     }
 }
@@ -175,6 +217,7 @@ pub fn replay(property: &str, engine: &str, flavour: &str, case: &Value) -> Vec<
         "seqx" => crate::with_flavor!(flavour, F => seqx::replay::<F>(property, case)),
         "gsweep" => crate::with_flavor!(flavour, F => gsweep::replay::<F>(property, case)),
         "csweep" => crate::with_flavor!(flavour, F => csweep::replay::<F>(property, case)),
+        "sched" => crate::with_sync_flavor!(flavour, F => sched::replay::<F>(property, case)),
         other => panic!("GDSL_MC_HARNESS: unknown engine {}", other),
     }
 }
